@@ -132,7 +132,13 @@ func escapeStringLiteral(s string) string {
 	for _, r := range s {
 		switch r {
 		case '\'':
-			b.WriteString("''")
+			if b.Len() == 0 {
+				// A literal must not begin with three quote characters: the tokenizer reads
+				// that as the start of a triple-quoted string.
+				b.WriteString(`\'`)
+			} else {
+				b.WriteString("''")
+			}
 		case '\\':
 			b.WriteString(`\\`)
 		case '\x00':
